@@ -107,8 +107,33 @@ def d_valid_configs(d, with_ctcs=True):
     return out
 
 
+LAST_RUN = []
+
+
+def guarded(main):
+    """run a property-level module; an exception that escapes from the code under test (innermost repository frame below the
+    stand-in's own frame) is a failed case of the property, not a failure of the machinery: the report is still written"""
+    import traceback
+    try:
+        main()
+    except SystemExit:
+        raise
+    except Exception as e:  # noqa: BLE001
+        tb = traceback.extract_tb(e.__traceback__)
+        inner = tb[-1].filename if tb else ''
+        from_library = ('/flamapy/' in inner) and '/verif/' not in inner
+        if not from_library or not LAST_RUN:
+            raise
+        run = LAST_RUN[-1]
+        run.case('no exception escapes from the library during the stand-in run', 'crash', False,
+                 f'{type(e).__name__}: {e} at {inner}:{tb[-1].lineno} ({tb[-1].name}); stand-in frame: '
+                 f'{[f"{x.filename.split("/")[-1]}:{x.lineno}" for x in tb if "/standin/" in x.filename][-1:]}')
+        run.finish('run aborted by an exception raised inside the library under test; cases evaluated until then are reported')
+
+
 class Run:
     def __init__(self, prop):
+        LAST_RUN.append(self)
         ap = argparse.ArgumentParser()
         ap.add_argument('--scope', default='quick')
         ap.add_argument('--seed', type=int, default=0)
